@@ -1040,7 +1040,17 @@ class Engine:
         op.update(cls=o.cls, target=o.uid, pg=name, data=[c.uid for c in chosen])
         self.last_footprint["content"].add("Objects/" + br(o.uid))
         obj = self.ent(o.uid)
-        obj.add_data_to_group([self.ent(c.uid) for c in chosen], name)
+        if self.rng.random() < 0.35:
+            # the selection is handed over as identifiers (what a by-name search over the workspace returns); identifiers of
+            # data that live on other objects are not this object's to group and are skipped
+            foreign = [d for d in self.model.of_kind("data") if d.parent != o.uid and d.assoc in ("VERTEX", "CELL")]
+            sel = [uuid.UUID(c.uid) for c in chosen] + ([uuid.UUID(self.rng.choice(foreign).uid)] if foreign else [])
+            self.rng.shuffle(sel)
+            obj.add_data_to_group(sel, name)
+            op["by"] = "identifiers"
+            self.rec.see("groups-filled-by-identifier" + ("-with-a-foreign-one" if foreign else ""))
+        else:
+            obj.add_data_to_group([self.ent(c.uid) for c in chosen], name)
         mem = o.pgs.setdefault(name, [])
         for c in chosen:
             if c.uid not in mem:
